@@ -747,6 +747,8 @@ def check(P, R, tier):
     import convdecode
     nc = convdecode.run_parallel(R, tu, "RF2-conv", quick=(tier != "thorough"), jobs=12)
     R.floor("RF2-conv", "decoded converter results over the 21 year classes", nc, 100000)
+    ns = convdecode.run_sweep(R, tu, "RF2-conv", jobs=12)
+    R.floor("RF2-conv", "day-number conversions swept over all years", ns, 30000)
     import lentab
     n = lentab.check(P, R, tu, {"mdays", "m01wd", "ydays"}, rule="RF2-closed")
     R.floor("RF2-closed", "entries of calendar tables spelled as closed forms", n, 200)
